@@ -176,6 +176,11 @@ def run(ctx):
     res = ctx.tlc("Aggregate", "MC_Aggregate_AsCoded.cfg", workers=4, expect_violation=True, tag="agg_ascoded", count=False)
     if "Deterministic" not in res["violations"]:
         raise Machinery("the original (non-total) aggregate sort key no longer violates Deterministic: model drifted")
+    # the first-record hand-off of `variants` on a piped alignment (F18): holds as repaired, refuted as it was coded
+    ctx.tlc("FirstRecord", "MC_FirstRecord.cfg", workers=4)
+    res = ctx.tlc("FirstRecord", "MC_FirstRecord_AsCoded.cfg", workers=4, expect_violation=True, tag="first_ascoded", count=False)
+    if "EmptyOnlyIfEmpty" not in res["violations"]:
+        raise Machinery("the first-record select as it was coded no longer violates EmptyOnlyIfEmpty: model drifted")
     ctx.build(race=True)
     gates = kernel.tlc_gen(ctx, "GenPipeline", "GenPipeline_quick.cfg" if quick else "GenPipeline.cfg", timeout=3000)
     gate_inproc = [dict(g, fam="pipe", sig=g["cmd"]) for g in gates if g["cmd"] != "topa"]
